@@ -737,7 +737,7 @@ func execConc(f []string) string {
 		line := "C07 " + strings.Join(sub, " ")
 		fs[i] = func() string {
 			first := ""
-			for rep := 0; rep < 32; rep++ {
+			for rep := 0; rep < 12; rep++ {
 				c := &ectx{}
 				out := c.exec(line)
 				if c.mutated() {
@@ -1273,7 +1273,10 @@ func genBoundaries(g *core.Gen) {
 	for _, n := range []int{251, 252, 253, 254, 255, 256, 65534, 65535, 65536, 65537} {
 		hts := []uint32{1, 3, 0x81, 0x83}
 		if n > 60000 && !g.Thorough() {
-			hts = []uint32{1, 0x83}
+			if n == 65534 || n == 65537 {
+				continue // the quick tier keeps the two sizes around the step
+			}
+			hts = []uint32{0x83}
 		}
 		for _, ht := range hts {
 			tx, spent := randTx(r, 2, 2)
@@ -1371,7 +1374,7 @@ func genHardening(g *core.Gen) {
 	r := g.R
 	genBoundaries(g)
 	// ---- independent digest computations running concurrently (no hidden shared state)
-	for k := 0; k < g.N(100, 2500); k++ {
+	for k := 0; k < g.N(60, 2500); k++ {
 		n := 8 + r.Intn(5)
 		subs := make([]string, n)
 		for i := range subs {
